@@ -19,9 +19,14 @@ and the counter-examples, which are evaluated on the model. For every non-vertic
 is proved at the strength of the property: `proj_segment_nearest_partial` (one segment: point on it, distance
 to it, minimal), `proj_segment_horizontal` (closed form for horizontal segments), `proj_polyline_vertices` and
 `proj_polyline_nearest_partial` (polyline: index of the carrying segment, point on it, distance to it, minimal
-over every point of every segment, the skipped zero-length segments included), `proj_polyline_skipped_partial` (a skipped
+over every point of every segment, the skipped zero-length segments included — and, since the `fix:` commit 563eeba, also
+when NO segment is kept: all the vertices coincide), `proj_polyline_skipped_partial` (a skipped
 segment of non-zero length `< 1e-16` touching a kept one is covered up to `1e-16`), `proj_polyline_skipped_run` /
-`proj_polyline_skipped_run_back` (a run of `k` consecutive skipped segments from a kept end: up to `k · 1e-16`). IEEE rounding is outside these
+`proj_polyline_skipped_run_back` (a run of `k` consecutive skipped segments from a kept end: up to `k · 1e-16`),
+`proj_polyline_all_skipped` (EVERY segment skipped — the case the fix repaired; before it the code raised
+`UnboundLocalError` —: the first vertex is returned with the distance to it, and the polyline is that point up to
+(number of segments) × `1e-16`), `proj_polyline_on` (what any answer guarantees on any polyline), `projPolyligne_vs_old`
+(the repair changes nothing where the old code returned). An empty polyline raises `IndexError`. IEEE rounding is outside these
 statements (the horizontal-segment defect D17 and its near-vertical counterpart exist only in floating point).
 
 Front ends (second half of the file): the argument forms of `proj_segment` / `proj_polyligne` (lists vs numpy
@@ -175,7 +180,9 @@ theorem vertical_as_coded {sqrt : α → α} (hs : SqrtSpec sqrt) (x1 y1 y2 x y 
     · left; congr 1; ext <;> simp [e1, e2]
     · right; congr 1; ext <;> simp [e1, e2]
 
-/-- T4 `proj_polyline_min_partial`: when `proj_polyligne` returns `(d, (px,py), i)`:
+/-- T4 `proj_polyline_min_partial`: when `proj_polyligne` returns `(d, (px,py), i)` on a polyline with at least one
+segment that is not skipped (`hex`; the other case — every segment skipped, the polyline is a point up to `1e-16` per
+segment — is `proj_polyline_all_skipped`):
 * `i` is the index of a segment of the polyline that was not skipped as (near-)zero-length, and `(px,py)` lies on it;
 * `d` is the distance from the query to `(px,py)`;
 * `d` is at most the distance to both end points of every non-skipped segment of any orientation, and at most
@@ -183,83 +190,162 @@ theorem vertical_as_coded {sqrt : α → α} (hs : SqrtSpec sqrt) (x1 y1 y2 x y 
 Hence on a polyline without vertical segments the result is a nearest point and its carrying segment.
 Missing w.r.t. the property: interior points of vertical segments (false there: D16). -/
 theorem proj_polyline_min_partial {sqrt : α → α} (hs : SqrtSpec sqrt) (eps : α) (pts : List (α × α))
-    (x y d px py : α) (i : Nat) (h : projPolyligne sqrt eps pts x y = .ok (d, px, py, i)) :
+    (x y d px py : α) (i : Nat) (h : projPolyligne sqrt eps pts x y = .ok (d, px, py, i))
+    (hex : ∃ j p1 p2, pts[j]? = some p1 ∧ pts[j + 1]? = some p2 ∧ skipped eps p1.1 p1.2 p2.1 p2.2 = false) :
     (∃ p1 p2, pts[i]? = some p1 ∧ pts[i + 1]? = some p2 ∧ skipped eps p1.1 p1.2 p2.1 p2.2 = false ∧
         OnSeg p1.1 p1.2 p2.1 p2.2 px py) ∧
     0 ≤ d ∧ d * d = d2 x y px py ∧
     (∀ j p1 p2, pts[j]? = some p1 → pts[j + 1]? = some p2 → skipped eps p1.1 p1.2 p2.1 p2.2 = false →
         (d * d ≤ d2 x y p1.1 p1.2 ∧ d * d ≤ d2 x y p2.1 p2.2) ∧
         (p1.1 ≠ p2.1 → ∀ qx qy, OnSeg p1.1 p1.2 p2.1 p2.2 qx qy → d * d ≤ d2 x y qx qy)) := by
-  unfold projPolyligne at h
-  cases hl : polyLoop sqrt eps x y pts 0 none with
-  | error e => rw [hl] at h; cases h
-  | ok res =>
-    rw [hl] at h
-    cases res with
-    | none => cases h
-    | some r =>
-      simp only at h
-      injection h with h
-      subst h
-      obtain ⟨o1, _, o3⟩ := polyLoop_spec sqrt eps x y pts 0 none _ hl
-      have hfrom : FromSeg sqrt eps x y pts 0 (d, px, py, i) := by
-        rcases o1 with e | ⟨r, e, f⟩
-        · cases e
-        · injection e with e; rw [e]; exact f
-      obtain ⟨k, p1, p2, ⟨s1, s2⟩, hi, hk, hp⟩ := hfrom
-      simp only [Nat.zero_add] at hi
-      subst hi
-      obtain ⟨d0, dd⟩ := proj_dist_consistent hs _ _ _ _ _ _ _ _ _ hp
-      refine ⟨⟨p1, p2, s1, s2, hk, proj_on_segment hs _ _ _ _ _ _ _ _ _ hp⟩, d0, dd, ?_⟩
-      intro j q1 q2 t1 t2 hj
-      obtain ⟨r, rk, er, hrk, le⟩ := o3 j q1 q2 ⟨t1, t2⟩ hj
-      injection er with er
-      subst er
-      simp only at le
-      have sq : d * d ≤ rk.1 * rk.1 := mul_self_le_mul_self d0 le
-      by_cases hx : q1.1 = q2.1
-      · refine ⟨?_, fun hne => absurd hx hne⟩
-        rw [← hx] at hrk
-        by_cases hy : q1.2 = q2.2
-        · rw [← hy, projSegment_degenerate hs] at hrk; cases hrk
-        · rw [projSegment_vertical hs _ _ _ _ _ hy] at hrk
-          split at hrk
-          · cases hrk
-          · injection hrk with hrk
-            obtain ⟨_, _, le1, le2, _⟩ := nearestEnd_spec hs q1.1 q1.2 q1.1 q2.2 x y
-            rw [hrk] at le1 le2
-            rw [← hx]
-            exact ⟨le_trans sq le1, le_trans sq le2⟩
-      · obtain ⟨d', px', py', e', hmin⟩ := proj_segment_min_partial hs q1.1 q1.2 q2.1 q2.2 x y hx
-        rw [hrk] at e'
-        injection e' with e'
-        have e1 : rk.1 = d' := by rw [e']
-        rw [e1] at sq
-        have all : ∀ qx qy, OnSeg q1.1 q1.2 q2.1 q2.2 qx qy → d * d ≤ d2 x y qx qy :=
-          fun qx qy hq => le_trans sq (hmin qx qy hq)
-        exact ⟨⟨all _ _ ⟨0, le_refl _, zero_le_one, by ring, by ring⟩,
-                all _ _ ⟨1, zero_le_one, le_refl _, by ring, by ring⟩⟩, fun _ => all⟩
+  have hl := projPolyligne_kept sqrt eps pts x y _ hex h
+  obtain ⟨o1, _, o3⟩ := polyLoop_spec sqrt eps x y pts 0 none _ hl
+  have hfrom : FromSeg sqrt eps x y pts 0 (d, px, py, i) := by
+    rcases o1 with e | ⟨r, e, f⟩
+    · cases e
+    · injection e with e; rw [e]; exact f
+  obtain ⟨k, p1, p2, ⟨s1, s2⟩, hi, hk, hp⟩ := hfrom
+  simp only [Nat.zero_add] at hi
+  subst hi
+  obtain ⟨d0, dd⟩ := proj_dist_consistent hs _ _ _ _ _ _ _ _ _ hp
+  refine ⟨⟨p1, p2, s1, s2, hk, proj_on_segment hs _ _ _ _ _ _ _ _ _ hp⟩, d0, dd, ?_⟩
+  intro j q1 q2 t1 t2 hj
+  obtain ⟨r, rk, er, hrk, le⟩ := o3 j q1 q2 ⟨t1, t2⟩ hj
+  injection er with er
+  subst er
+  simp only at le
+  have sq : d * d ≤ rk.1 * rk.1 := mul_self_le_mul_self d0 le
+  by_cases hx : q1.1 = q2.1
+  · refine ⟨?_, fun hne => absurd hx hne⟩
+    rw [← hx] at hrk
+    by_cases hy : q1.2 = q2.2
+    · rw [← hy, projSegment_degenerate hs] at hrk; cases hrk
+    · rw [projSegment_vertical hs _ _ _ _ _ hy] at hrk
+      split at hrk
+      · cases hrk
+      · injection hrk with hrk
+        obtain ⟨_, _, le1, le2, _⟩ := nearestEnd_spec hs q1.1 q1.2 q1.1 q2.2 x y
+        rw [hrk] at le1 le2
+        rw [← hx]
+        exact ⟨le_trans sq le1, le_trans sq le2⟩
+  · obtain ⟨d', px', py', e', hmin⟩ := proj_segment_min_partial hs q1.1 q1.2 q2.1 q2.2 x y hx
+    rw [hrk] at e'
+    injection e' with e'
+    have e1 : rk.1 = d' := by rw [e']
+    rw [e1] at sq
+    have all : ∀ qx qy, OnSeg q1.1 q1.2 q2.1 q2.2 qx qy → d * d ≤ d2 x y qx qy :=
+      fun qx qy hq => le_trans sq (hmin qx qy hq)
+    exact ⟨⟨all _ _ ⟨0, le_refl _, zero_le_one, by ring, by ring⟩,
+            all _ _ ⟨1, zero_le_one, le_refl _, by ring, by ring⟩⟩, fun _ => all⟩
 
-/-- T4b `proj_polyline_total`: on a polyline with at least one non-skipped segment and no non-skipped
-vertical one, `proj_polyligne` returns (no `ZeroDivisionError`, no `UnboundLocalError`). -/
+/-- T4b `proj_polyline_total`: on a polyline with at least one vertex and no non-skipped vertical segment,
+`proj_polyligne` returns (no `ZeroDivisionError`, no `IndexError`) — whether or not a segment is kept (since the
+`fix:` commit 563eeba a polyline all of whose segments are skipped is answered with its first vertex). -/
 theorem proj_polyline_total {sqrt : α → α} (hs : SqrtSpec sqrt) (eps : α) (pts : List (α × α)) (x y : α)
     (hnv : ∀ j p1 p2, pts[j]? = some p1 → pts[j + 1]? = some p2 → skipped eps p1.1 p1.2 p2.1 p2.2 = false → p1.1 ≠ p2.1)
-    (hex : ∃ j p1 p2, pts[j]? = some p1 ∧ pts[j + 1]? = some p2 ∧ skipped eps p1.1 p1.2 p2.1 p2.2 = false) :
+    (hne : pts ≠ []) :
     ∃ r, projPolyligne sqrt eps pts x y = .ok r := by
   have hall : ∀ k p1 p2, SegAt pts k p1 p2 → skipped eps p1.1 p1.2 p2.1 p2.2 = false →
       ∃ r, projSegment sqrt p1.1 p1.2 p2.1 p2.2 x y = .ok r := by
     intro k p1 p2 hs' hk
     obtain ⟨d, px, py, e, _⟩ := proj_segment_min_partial hs p1.1 p1.2 p2.1 p2.2 x y (hnv k p1 p2 hs'.1 hs'.2 hk)
     exact ⟨_, e⟩
-  obtain ⟨res, e, f⟩ := polyLoop_total sqrt eps x y pts hall 0 none
+  obtain ⟨res, e, _⟩ := polyLoop_total sqrt eps x y pts hall 0 none
   unfold projPolyligne
-  rw [e]
-  cases res with
-  | some r => exact ⟨r, rfl⟩
-  | none =>
-    obtain ⟨j, p1, p2, s1, s2, hk⟩ := hex
-    have := (f rfl).2 j p1 p2 ⟨s1, s2⟩
-    rw [hk] at this; cases this
+  match pts, hne, e with
+  | p0 :: rest, _, e =>
+    simp only [e]
+    cases res with
+    | some r => exact ⟨r, rfl⟩
+    | none => exact ⟨_, rfl⟩
+
+/-- `proj_polyline_all_skipped` (the case the `fix:` commit 563eeba repaired): a polyline ALL of whose segments are skipped by
+the `abs(dx) + abs(dy) < eps` test (`1e-16`) — all the vertices coincide, exactly or up to the threshold per segment; a single
+vertex. `proj_polyligne` returns its FIRST vertex `p0`, index `0`, and the distance `d` from the query to `p0`
+(`0 ≤ d`, `d² = |q - p0|²`); the polyline IS that point up to (number of segments) × `eps`: every point `(qx, qy)` of its
+`(t+1)`-th segment is within `(t + 1) * eps` of `p0` (in the `|dx| + |dy|` sense of the test), hence
+`d ≤ |q - (qx, qy)| + (t + 1) * eps` and `|q - (qx, qy)| ≤ d + (t + 1) * eps`: the returned distance is the minimum distance to
+the polyline up to that bound, and exactly when the vertices coincide exactly (`eps`-free form: `proj_polyline_nearest_partial`).
+Every orientation (a skipped segment is never handed to `proj_segment`): no exception. Exact arithmetic. -/
+theorem proj_polyline_all_skipped {sqrt : α → α} (hs : SqrtSpec sqrt) (eps : α) (p0 : α × α) (rest : List (α × α)) (x y : α)
+    (hall : ∀ j p1 p2, (p0 :: rest)[j]? = some p1 → (p0 :: rest)[j + 1]? = some p2 → skipped eps p1.1 p1.2 p2.1 p2.2 = true) :
+    ∃ d, projPolyligne sqrt eps (p0 :: rest) x y = .ok (d, p0.1, p0.2, 0) ∧ 0 ≤ d ∧ d * d = d2 x y p0.1 p0.2 ∧
+      ∀ t a b, (p0 :: rest)[t]? = some a → (p0 :: rest)[t + 1]? = some b → ∀ qx qy, OnSeg a.1 a.2 b.1 b.2 qx qy →
+        |qx - p0.1| + |qy - p0.2| ≤ ((t + 1 : Nat) : α) * eps ∧
+        d ≤ sqrt (d2 x y qx qy) + ((t + 1 : Nat) : α) * eps ∧ sqrt (d2 x y qx qy) ≤ d + ((t + 1 : Nat) : α) * eps := by
+  obtain ⟨d0, dd⟩ := hs _ (d2_nonneg x y p0.1 p0.2)
+  refine ⟨sqrt (d2 x y p0.1 p0.2), projPolyligne_all_skipped sqrt eps p0 rest x y (fun k p1 p2 hk => hall k p1 p2 hk.1 hk.2),
+    d0, dd, ?_⟩
+  intro t a b ha hb qx qy hq
+  have hlt : fabs (a.1 - b.1) + fabs (a.2 - b.2) < eps := by
+    simpa [skipped] using hall t a b ha hb
+  obtain ⟨n1, _⟩ := onSeg_near_ends _ _ _ _ _ _ hq
+  obtain ⟨e0, ee⟩ := hs _ (d2_nonneg x y qx qy)
+  have hr := run_near eps (p0 :: rest) 0 t p0 a rfl (by rw [Nat.zero_add]; exact ha)
+    (fun s' hs' a' b' ha' hb' => hall s' a' b' (by rw [Nat.zero_add] at ha'; exact ha') (by rw [Nat.zero_add] at hb'; exact hb'))
+  have t1 : |qx - p0.1| ≤ |qx - a.1| + |a.1 - p0.1| := abs_sub_le _ _ _
+  have t2 : |qy - p0.2| ≤ |qy - a.2| + |a.2 - p0.2| := abs_sub_le _ _ _
+  have hnear : |qx - p0.1| + |qy - p0.2| ≤ ((t + 1 : Nat) : α) * eps := by
+    push_cast
+    linarith
+  have hnear' : |p0.1 - qx| + |p0.2 - qy| ≤ ((t + 1 : Nat) : α) * eps := by
+    rw [abs_sub_comm p0.1 qx, abs_sub_comm p0.2 qy]; exact hnear
+  exact ⟨hnear, near_vertex_bound x y p0.1 p0.2 qx qy _ _ _ d0 e0 (le_of_eq dd) ee hnear,
+    near_vertex_bound x y qx qy p0.1 p0.2 _ _ _ e0 d0 (le_of_eq ee) dd hnear'⟩
+
+/-- `proj_polyline_on`: what an answer `(d, (px,py), i)` of `proj_polyligne` guarantees on ANY polyline, with or without a kept
+segment, of any orientation: vertex `i` exists; `d` is the distance from the query to `(px,py)`; when the polyline has at
+least two vertices, segment `i` exists and `(px,py)` lies on it (a kept segment, or — every segment skipped — segment 0, of
+which it is the first end); on a single-vertex polyline `i = 0` and `(px,py)` is that vertex. This is what C10's candidate
+loop uses (position on an existing edge geometry, distance within the radius). -/
+theorem proj_polyline_on {sqrt : α → α} (hs : SqrtSpec sqrt) (eps : α) (pts : List (α × α))
+    (x y d px py : α) (i : Nat) (h : projPolyligne sqrt eps pts x y = .ok (d, px, py, i)) :
+    0 ≤ d ∧ d * d = d2 x y px py ∧ ∃ p1, pts[i]? = some p1 ∧
+      (2 ≤ pts.length → ∃ p2, pts[i + 1]? = some p2 ∧ OnSeg p1.1 p1.2 p2.1 p2.2 px py) ∧
+      (pts.length = 1 → i = 0 ∧ (px, py) = p1) := by
+  by_cases hex : ∃ j p1 p2, pts[j]? = some p1 ∧ pts[j + 1]? = some p2 ∧ skipped eps p1.1 p1.2 p2.1 p2.2 = false
+  · obtain ⟨⟨p1, p2, s1, s2, _, hon⟩, d0, dd, _⟩ := proj_polyline_min_partial hs eps pts x y d px py i h hex
+    refine ⟨d0, dd, p1, s1, fun _ => ⟨p2, s2, hon⟩, fun h1 => ?_⟩
+    have := (List.getElem?_eq_some_iff.mp s2).1
+    omega
+  · have hsk : ∀ j p1 p2, pts[j]? = some p1 → pts[j + 1]? = some p2 → skipped eps p1.1 p1.2 p2.1 p2.2 = true := by
+      intro j p1 p2 t1 t2
+      cases hk : skipped eps p1.1 p1.2 p2.1 p2.2 with
+      | true => rfl
+      | false => exact absurd ⟨j, p1, p2, t1, t2, hk⟩ hex
+    match pts, h, hsk with
+    | [], h, _ => simp [projPolyligne] at h
+    | p0 :: rest, h, hsk =>
+      obtain ⟨d', e', d0, dd, _⟩ := proj_polyline_all_skipped hs eps p0 rest x y hsk
+      rw [e'] at h
+      injection h with h
+      simp only [Prod.mk.injEq] at h
+      obtain ⟨rfl, rfl, rfl, rfl⟩ := h
+      refine ⟨d0, dd, p0, rfl, ?_, fun _ => ⟨rfl, rfl⟩⟩
+      intro h2
+      match rest, h2 with
+      | p1 :: rest', _ => exact ⟨p1, rfl, ⟨0, le_refl _, zero_le_one, by ring, by ring⟩⟩
+
+/-- the repair is conservative: whenever the pre-fix function (`projPolyligneOld`, kept only as the documented old variant:
+`none` = its `UnboundLocalError`) returned an answer, the current one returns the same; where it raised
+`UnboundLocalError` on a non-empty polyline the current one returns the first vertex -/
+theorem projPolyligne_vs_old (sqrt : α → α) (eps : α) (pts : List (α × α)) (x y : α) :
+    (∀ r, projPolyligneOld sqrt eps pts x y = .ok (some r) → projPolyligne sqrt eps pts x y = .ok r) ∧
+    (∀ p0 rest, pts = p0 :: rest → projPolyligneOld sqrt eps pts x y = .ok none →
+      projPolyligne sqrt eps pts x y = .ok (firstVertex sqrt x y p0.1 p0.2)) ∧
+    (∀ e, projPolyligneOld sqrt eps pts x y = .error e → pts ≠ [] → projPolyligne sqrt eps pts x y = .error e) := by
+  unfold projPolyligneOld projPolyligne
+  refine ⟨?_, ?_, ?_⟩
+  · intro r h
+    match pts, h with
+    | [], h => simp [polyLoop] at h
+    | p0 :: rest, h => simp only [h]
+  · intro p0 rest e h
+    subst e
+    simp only [h]
+  · intro e h hne
+    match pts, hne, h with
+    | p0 :: rest, _, h => simp only [h]
 
 /-- T5 `projOnTrack_spec`: the map-matching wrapper `__projOnTrack` / `mapOnTrack(coord, track)` returns the same
 point, distance and segment index as `proj_polyligne`, reordered as `(point, distance, index)`. -/
@@ -346,6 +432,15 @@ lattice `eps = 1` skips exactly the zero-length segments), query `(0,0)` → seg
 example : (projPolyligne sqTable 1 [(-4, 3), (4, 3), (4, 3), (4, -3)] 0 0).toOption
     = some (3, 0, 3, 0) := by decide +kernel
 
+/-- non-vacuity of `proj_polyline_all_skipped`, evaluated on the model (`eps = 1`): the polyline `(4,3),(4,3),(4,3)` (the
+witness of the repaired defect: all vertices equal) and `(4,3),(4,13/4),(4,7/2)` (two segments of length `1/4`, both
+skipped), query `(0,0)` → the first vertex `(4,3)` at distance 5, index 0; a single vertex too; an empty polyline raises
+`IndexError` (`Xp[0]`) -/
+example : (projPolyligne sqTable 1 [(4, 3), (4, 3), (4, 3)] 0 0).toOption = some (5, 4, 3, 0)
+    ∧ (projPolyligne sqTable 1 [(4, 3), (4, 13 / 4), (4, 7 / 2)] 0 0).toOption = some (5, 4, 3, 0)
+    ∧ (projPolyligne sqTable 1 [(4, 3)] 0 0).toOption = some (5, 4, 3, 0)
+    ∧ (match projPolyligne sqTable 1 [] 0 0 with | .error .index => true | _ => false) = true := by decide +kernel
+
 /-! ## The statement at the strength of the property, for every non-vertical orientation
 
 Exact arithmetic (an ordered field): the floating-point defect D17 of horizontal segments (`yb = -c / b` not
@@ -409,13 +504,35 @@ theorem proj_polyline_vertices {sqrt : α → α} (hs : SqrtSpec sqrt) (eps : α
     (x y d px py : α) (i : Nat) (h : projPolyligne sqrt eps pts x y = .ok (d, px, py, i))
     (hz : ∀ j p1 p2, pts[j]? = some p1 → pts[j + 1]? = some p2 → skipped eps p1.1 p1.2 p2.1 p2.2 = true → p1 = p2) :
     ∀ (v : Nat) (p : α × α), pts[v]? = some p → d * d ≤ d2 x y p.1 p.2 := by
-  obtain ⟨⟨p1, p2, s1, s2, hk, _⟩, _, _, hall⟩ := proj_polyline_min_partial hs eps pts x y d px py i h
-  exact vertices_of_live eps pts (fun p => d * d ≤ d2 x y p.1 p.2) i p1 hz
-    (fun j q1 q2 t1 t2 hj => (hall j q1 q2 t1 t2 hj).1) s1 (hall i p1 p2 s1 s2 hk).1.1
+  by_cases hex : ∃ j p1 p2, pts[j]? = some p1 ∧ pts[j + 1]? = some p2 ∧ skipped eps p1.1 p1.2 p2.1 p2.2 = false
+  · obtain ⟨⟨p1, p2, s1, s2, hk, _⟩, _, _, hall⟩ := proj_polyline_min_partial hs eps pts x y d px py i h hex
+    exact vertices_of_live eps pts (fun p => d * d ≤ d2 x y p.1 p.2) i p1 hz
+      (fun j q1 q2 t1 t2 hj => (hall j q1 q2 t1 t2 hj).1) s1 (hall i p1 p2 s1 s2 hk).1.1
+  · -- every segment is skipped, hence (hz) all the vertices are the first one, which is what is returned
+    have hsk : ∀ j p1 p2, pts[j]? = some p1 → pts[j + 1]? = some p2 → skipped eps p1.1 p1.2 p2.1 p2.2 = true := by
+      intro j p1 p2 t1 t2
+      cases hk : skipped eps p1.1 p1.2 p2.1 p2.2 with
+      | true => rfl
+      | false => exact absurd ⟨j, p1, p2, t1, t2, hk⟩ hex
+    match pts, h, hz, hsk with
+    | [], h, _, _ => simp [projPolyligne] at h
+    | p0 :: rest, h, hz, hsk =>
+      rw [projPolyligne_all_skipped sqrt eps p0 rest x y (fun k p1 p2 hk => hsk k p1 p2 hk.1 hk.2)] at h
+      injection h with h
+      simp only [firstVertex, Prod.mk.injEq] at h
+      obtain ⟨hd, _, _, _⟩ := h
+      obtain ⟨_, dd⟩ := hs _ (d2_nonneg x y p0.1 p0.2)
+      have hall : ∀ (v : Nat) (p : α × α), (p0 :: rest)[v]? = some p → p = p0 :=
+        vertices_of_live eps (p0 :: rest) (fun p => p = p0) 0 p0 hz
+          (fun j q1 q2 t1 t2 hj => by rw [hsk j q1 q2 t1 t2] at hj; cases hj) rfl rfl
+      intro v p hp
+      rw [hall v p hp, ← hd]
+      exact le_of_eq dd
 
 /-- T4'' `proj_polyline_nearest_partial`: the property at full strength for every polyline without vertical segment.
-Hypotheses: no segment kept by the `< 1e-16` test is vertical; every segment skipped by it has two equal vertices; at
-least one segment is kept. Then `proj_polyligne` returns `(d, (px,py), i)` with: `i` the index of a segment of the
+Hypotheses: no segment kept by the `< 1e-16` test is vertical; every segment skipped by it has two equal vertices; the
+polyline has at least two vertices (NO segment need be kept: a polyline all of whose vertices coincide is covered since the
+`fix:` commit 563eeba — the returned point is then that vertex, on segment 0). Then `proj_polyligne` returns `(d, (px,py), i)` with: `i` the index of a segment of the
 polyline, `(px,py)` on that segment, `d` = distance from the query to `(px,py)`, and `d` ≤ the distance from the query
 to **every point of every segment** of the polyline (skipped ones included): `(px,py)` is a nearest point of the
 polyline. Segments may be oblique or horizontal, run in any direction, repeat vertices, be collinear.
@@ -424,26 +541,49 @@ length `< 1e-16` (its points are nearer than `1e-16` to a vertex). -/
 theorem proj_polyline_nearest_partial {sqrt : α → α} (hs : SqrtSpec sqrt) (eps : α) (pts : List (α × α)) (x y : α)
     (hnv : ∀ j p1 p2, pts[j]? = some p1 → pts[j + 1]? = some p2 → skipped eps p1.1 p1.2 p2.1 p2.2 = false → p1.1 ≠ p2.1)
     (hz : ∀ j p1 p2, pts[j]? = some p1 → pts[j + 1]? = some p2 → skipped eps p1.1 p1.2 p2.1 p2.2 = true → p1 = p2)
-    (hex : ∃ j p1 p2, pts[j]? = some p1 ∧ pts[j + 1]? = some p2 ∧ skipped eps p1.1 p1.2 p2.1 p2.2 = false) :
+    (h2 : 2 ≤ pts.length) :
     ∃ d px py i, projPolyligne sqrt eps pts x y = .ok (d, px, py, i) ∧
       (∃ p1 p2, pts[i]? = some p1 ∧ pts[i + 1]? = some p2 ∧ OnSeg p1.1 p1.2 p2.1 p2.2 px py) ∧
       0 ≤ d ∧ d * d = d2 x y px py ∧
       ∀ j p1 p2, pts[j]? = some p1 → pts[j + 1]? = some p2 →
         ∀ qx qy, OnSeg p1.1 p1.2 p2.1 p2.2 qx qy → d * d ≤ d2 x y qx qy := by
-  obtain ⟨⟨d, px, py, i⟩, h⟩ := proj_polyline_total hs eps pts x y hnv hex
-  obtain ⟨⟨p1, p2, s1, s2, _, hon⟩, d0, dd, hall⟩ := proj_polyline_min_partial hs eps pts x y d px py i h
-  refine ⟨d, px, py, i, h, ⟨p1, p2, s1, s2, hon⟩, d0, dd, ?_⟩
-  intro j q1 q2 t1 t2 qx qy hq
-  cases hsk : skipped eps q1.1 q1.2 q2.1 q2.2 with
-  | false => exact (hall j q1 q2 t1 t2 hsk).2 (hnv j q1 q2 t1 t2 hsk) qx qy hq
-  | true =>
-    have e := hz j q1 q2 t1 t2 hsk
-    subst e
-    obtain ⟨t, _, _, e1, e2⟩ := hq
-    have ex : qx = q1.1 := by rw [e1]; ring
-    have ey : qy = q1.2 := by rw [e2]; ring
-    rw [ex, ey]
-    exact proj_polyline_vertices hs eps pts x y d px py i h hz j q1 t1
+  have hne : pts ≠ [] := by intro e; subst e; simp at h2
+  obtain ⟨⟨d, px, py, i⟩, h⟩ := proj_polyline_total hs eps pts x y hnv hne
+  -- minimality over every point of every segment, from the vertices (skipped segments) and T4 (kept ones)
+  have hmin : (∀ j p1 p2, pts[j]? = some p1 → pts[j + 1]? = some p2 → skipped eps p1.1 p1.2 p2.1 p2.2 = false →
+        p1.1 ≠ p2.1 → ∀ qx qy, OnSeg p1.1 p1.2 p2.1 p2.2 qx qy → d * d ≤ d2 x y qx qy) →
+      ∀ j p1 p2, pts[j]? = some p1 → pts[j + 1]? = some p2 →
+        ∀ qx qy, OnSeg p1.1 p1.2 p2.1 p2.2 qx qy → d * d ≤ d2 x y qx qy := by
+    intro hall j q1 q2 t1 t2 qx qy hq
+    cases hsk : skipped eps q1.1 q1.2 q2.1 q2.2 with
+    | false => exact hall j q1 q2 t1 t2 hsk (hnv j q1 q2 t1 t2 hsk) qx qy hq
+    | true =>
+      have e := hz j q1 q2 t1 t2 hsk
+      subst e
+      obtain ⟨t, _, _, e1, e2⟩ := hq
+      have ex : qx = q1.1 := by rw [e1]; ring
+      have ey : qy = q1.2 := by rw [e2]; ring
+      rw [ex, ey]
+      exact proj_polyline_vertices hs eps pts x y d px py i h hz j q1 t1
+  by_cases hex : ∃ j p1 p2, pts[j]? = some p1 ∧ pts[j + 1]? = some p2 ∧ skipped eps p1.1 p1.2 p2.1 p2.2 = false
+  · obtain ⟨⟨p1, p2, s1, s2, _, hon⟩, d0, dd, hall⟩ := proj_polyline_min_partial hs eps pts x y d px py i h hex
+    exact ⟨d, px, py, i, h, ⟨p1, p2, s1, s2, hon⟩, d0, dd,
+      hmin (fun j q1 q2 t1 t2 hsk hne' => (hall j q1 q2 t1 t2 hsk).2 hne')⟩
+  · -- every segment is skipped: the first vertex, which lies on segment 0
+    have hsk : ∀ j p1 p2, pts[j]? = some p1 → pts[j + 1]? = some p2 → skipped eps p1.1 p1.2 p2.1 p2.2 = true := by
+      intro j p1 p2 t1 t2
+      cases hk : skipped eps p1.1 p1.2 p2.1 p2.2 with
+      | true => rfl
+      | false => exact absurd ⟨j, p1, p2, t1, t2, hk⟩ hex
+    match pts, h2, h, hsk, hmin with
+    | p0 :: p1 :: rest, _, h, hsk, hmin =>
+      obtain ⟨d', e', d0, dd, _⟩ := proj_polyline_all_skipped hs eps p0 (p1 :: rest) x y hsk
+      rw [e'] at h
+      injection h with h
+      simp only [Prod.mk.injEq] at h
+      obtain ⟨rfl, rfl, rfl, rfl⟩ := h
+      refine ⟨d', p0.1, p0.2, 0, e', ⟨p0, p1, rfl, rfl, ⟨0, le_refl _, zero_le_one, by ring, by ring⟩⟩, d0, dd, ?_⟩
+      exact hmin (fun j q1 q2 t1 t2 hk => by rw [hsk j q1 q2 t1 t2] at hk; cases hk)
 
 /-- `proj_polyline_skipped_partial`: the error made by skipping a segment of NON-zero length `< eps` (`1e-16`) is at most
 `eps`. If `proj_polyligne` returns `(d, …)` and segment `j` is skipped by the `abs(dx) + abs(dy) < eps` test while one of
@@ -460,8 +600,8 @@ theorem proj_polyline_skipped_partial {sqrt : α → α} (hs : SqrtSpec sqrt) (e
     (hadj : ∃ k q1 q2, pts[k]? = some q1 ∧ pts[k + 1]? = some q2 ∧ skipped eps q1.1 q1.2 q2.1 q2.2 = false ∧
       (q1 = p1 ∨ q2 = p1 ∨ q1 = p2 ∨ q2 = p2)) :
     ∀ qx qy, OnSeg p1.1 p1.2 p2.1 p2.2 qx qy → d ≤ sqrt (d2 x y qx qy) + eps := by
-  obtain ⟨_, d0, _, hall⟩ := proj_polyline_min_partial hs eps pts x y d px py i h
   obtain ⟨k, q1, q2, k1, k2, hk, hends⟩ := hadj
+  obtain ⟨_, d0, _, hall⟩ := proj_polyline_min_partial hs eps pts x y d px py i h ⟨k, q1, q2, k1, k2, hk⟩
   obtain ⟨⟨b1, b2⟩, _⟩ := hall k q1 q2 k1 k2 hk
   have hlt : fabs (p1.1 - p2.1) + fabs (p1.2 - p2.2) < eps := by
     simpa [skipped] using hsk
@@ -490,7 +630,8 @@ example : (projPolyligne sqTable 1 [(-4, 3), (4, 3), (4, 7 / 2)] 0 0).toOption =
 the run is at most the number of skipped segments walked from the nearest kept end, times the threshold. With
 `proj_polyline_skipped_run_back` (runs going backward to a kept end) and `proj_polyline_min_partial` this covers every point of a
 polyline that has a kept segment (a maximal run of skipped segments always touches a kept segment at one of its ends, unless
-every segment is skipped — then `proj_polyligne` raises): without kept vertical segment the returned distance exceeds the true
+every segment is skipped — then `proj_polyline_all_skipped` applies: the first vertex is returned and every point is covered up
+to (number of segments) × `eps`): without kept vertical segment the returned distance exceeds the true
 minimum by at most (longest run) × `eps`. `proj_polyline_skipped_partial` is the case `r = 1`. Exact arithmetic. -/
 theorem proj_polyline_skipped_run {sqrt : α → α} (hs : SqrtSpec sqrt) (eps : α) (pts : List (α × α))
     (x y d px py : α) (i : Nat) (h : projPolyligne sqrt eps pts x y = .ok (d, px, py, i))
@@ -500,8 +641,8 @@ theorem proj_polyline_skipped_run {sqrt : α → α} (hs : SqrtSpec sqrt) (eps :
     (hrun : ∀ t, t < r → ∀ a b, pts[v + t]? = some a → pts[v + t + 1]? = some b → skipped eps a.1 a.2 b.1 b.2 = true) :
     ∀ t, t < r → ∀ a b, pts[v + t]? = some a → pts[v + t + 1]? = some b →
       ∀ qx qy, OnSeg a.1 a.2 b.1 b.2 qx qy → d ≤ sqrt (d2 x y qx qy) + ((t + 1 : Nat) : α) * eps := by
-  obtain ⟨_, d0, _, hall⟩ := proj_polyline_min_partial hs eps pts x y d px py i h
   obtain ⟨k, q1, q2, k1, k2, hk, hends⟩ := hadj
+  obtain ⟨_, d0, _, hall⟩ := proj_polyline_min_partial hs eps pts x y d px py i h ⟨k, q1, q2, k1, k2, hk⟩
   obtain ⟨⟨b1, b2⟩, _⟩ := hall k q1 q2 k1 k2 hk
   have hvd : d * d ≤ d2 x y pv.1 pv.2 := by
     rcases hends with e | e
@@ -530,8 +671,8 @@ theorem proj_polyline_skipped_run_back {sqrt : α → α} (hs : SqrtSpec sqrt) (
     (hrun : ∀ t, t < r → ∀ a b, pts[w + t]? = some a → pts[w + t + 1]? = some b → skipped eps a.1 a.2 b.1 b.2 = true) :
     ∀ t, t < r → ∀ a b, pts[w + t]? = some a → pts[w + t + 1]? = some b →
       ∀ qx qy, OnSeg a.1 a.2 b.1 b.2 qx qy → d ≤ sqrt (d2 x y qx qy) + ((r - t : Nat) : α) * eps := by
-  obtain ⟨_, d0, _, hall⟩ := proj_polyline_min_partial hs eps pts x y d px py i h
   obtain ⟨k, q1, q2, k1, k2, hk, hends⟩ := hadj
+  obtain ⟨_, d0, _, hall⟩ := proj_polyline_min_partial hs eps pts x y d px py i h ⟨k, q1, q2, k1, k2, hk⟩
   obtain ⟨⟨b1, b2⟩, _⟩ := hall k q1 q2 k1 k2 hk
   have hvd : d * d ≤ d2 x y pv.1 pv.2 := by
     rcases hends with e | e
@@ -596,23 +737,29 @@ theorem projPolyligneXY_spec (np : Bool) (sqrt : α → α) (eps : α) (X Y : Li
     · exact projSegmentG_of_ne np sqrt _ _ _ _ _ _ (hnv k p1 p2 hs.1 hs.2 hk)
   unfold projPolyligneXY projPolyligne
   rw [polyLoopXY_zip np sqrt eps x y X Y 0 none hl hseg]
-  cases polyLoop sqrt eps x y (X.zip Y) 0 none with
-  | error e => rfl
-  | ok r => cases r <;> rfl
+  match X, Y, hl with
+  | [], _, _ => rfl
+  | x0 :: xs, [], hl => simp at hl
+  | x0 :: xs, y0 :: ys, _ =>
+    simp only [List.zip_cons_cons]
+    cases polyLoop sqrt eps x y ((x0, y0) :: xs.zip ys) 0 none with
+    | error e => rfl
+    | ok r => cases r <;> rfl
 
-/-- `projPolyligneXY_short`: with `len(Yp) < len(Xp)` `proj_polyligne` never returns a value (`IndexError`, an earlier
-`ZeroDivisionError`, or `UnboundLocalError` when `Xp` has fewer than two elements). -/
+/-- `projPolyligneXY_short`: with `len(Yp) < len(Xp)` `proj_polyligne` never returns a value (`IndexError` — at `Yp[0]` when
+`Yp` is empty, else in the loop at `Yp[i]` / `Yp[i + 1]` —, or an earlier `ZeroDivisionError`). -/
 theorem projPolyligneXY_short (np : Bool) (sqrt : α → α) (eps : α) (X Y : List α) (x y : α) (hl : Y.length < X.length)
     (r : α × α × α × Nat) : projPolyligneXY np sqrt eps X Y x y ≠ .ok r := by
   unfold projPolyligneXY
-  by_cases h2 : 2 ≤ X.length
-  · cases hres : polyLoopXY np sqrt eps x y X Y 0 none with
+  match X, Y, hl with
+  | [], _, hl => simp at hl
+  | _ :: _, [], _ => simp
+  | [_], _ :: _, hl => simp at hl
+  | x0 :: x1 :: xs, y0 :: ys, hl =>
+    simp only []
+    cases hres : polyLoopXY np sqrt eps x y (x0 :: x1 :: xs) (y0 :: ys) 0 none with
     | error e => simp
-    | ok res => exact absurd hres (polyLoopXY_short np sqrt eps x y X Y 0 none res h2 hl)
-  · match X, h2 with
-    | [], _ => simp [polyLoopXY]
-    | [_], _ => simp [polyLoopXY]
-    | _ :: _ :: _, h2 => simp at h2
+    | ok res => exact absurd hres (polyLoopXY_short np sqrt eps x y _ _ 0 none res (by simp) hl)
 
 /-- the planimetric vertices of a list of 3D positions -/
 def xy (pts : List (α × α × α)) : List (α × α) := pts.map (fun p => (p.1, p.2.1))
@@ -808,7 +955,7 @@ theorem mapChain_calls (sqrt : α → α) (eps : α) (ofNat : Nat → α) (refs 
 
 /-- `mapOnTrackT_nearest_partial`: the property at full strength **through the track form**, on track objects with any
 state. Hypotheses on the reference polyline as in `proj_polyline_nearest_partial` (no kept vertical segment, skipped
-segments zero-length, one kept), and a track of queries with at least one observation. Then `mapOnTrack(track, track)`
+segments zero-length, at least two vertices — a reference track all of whose positions coincide included), and a track of queries with at least one observation. Then `mapOnTrack(track, track)`
 returns an output track, with rows `(point, d, i)` one per query in order such that the output's positions are the
 points, its `dist` feature the `d`, its `edge` feature the `i`, and for every query `j`: the point is
 `ENUCoords(px, py, 0)` lying on segment `i` of the reference polyline, `d` is the distance from the query to it, and `d` is
@@ -821,8 +968,7 @@ theorem mapOnTrackT_nearest_partial {sqrt : α → α} (hs : SqrtSpec sqrt) (eps
       skipped eps p1.1 p1.2 p2.1 p2.2 = false → p1.1 ≠ p2.1)
     (hz : ∀ j p1 p2, (xy (positions ref))[j]? = some p1 → (xy (positions ref))[j + 1]? = some p2 →
       skipped eps p1.1 p1.2 p2.1 p2.2 = true → p1 = p2)
-    (hex : ∃ j p1 p2, (xy (positions ref))[j]? = some p1 ∧ (xy (positions ref))[j + 1]? = some p2 ∧
-      skipped eps p1.1 p1.2 p2.1 p2.2 = false) :
+    (h2 : 2 ≤ (xy (positions ref)).length) :
     ∃ (out : St α) (rows : List ((α × α × α) × α × Nat)),
       mapOnTrackT sqrt eps ofNat ref q = .ok out ∧ out.dico.map Prod.fst = ["dist", "edge"] ∧
       rows.length = (positions q).length ∧ positions out = rows.map (fun r => r.1) ∧
@@ -836,7 +982,7 @@ theorem mapOnTrackT_nearest_partial {sqrt : α → α} (hs : SqrtSpec sqrt) (eps
   -- every query projects
   have hone : ∀ qj : α × α × α, ∃ r, projOnTrack3 sqrt eps (positions ref) qj = .ok r := by
     intro qj
-    obtain ⟨d, px, py, i, e, _⟩ := proj_polyline_nearest_partial hs eps (xy (positions ref)) qj.1 qj.2.1 hnv hz hex
+    obtain ⟨d, px, py, i, e, _⟩ := proj_polyline_nearest_partial hs eps (xy (positions ref)) qj.1 qj.2.1 hnv hz h2
     exact ⟨_, (projOnTrack3_planimetric sqrt eps (positions ref) qj px py 0 d i).mpr ⟨rfl, e⟩⟩
   have hall : ∀ qs : List (α × α × α), ∃ rows, mapOnTrack3All sqrt eps (positions ref) qs = .ok rows := by
     intro qs
@@ -859,7 +1005,7 @@ theorem mapOnTrackT_nearest_partial {sqrt : α → α} (hs : SqrtSpec sqrt) (eps
   intro j qj hj
   obtain ⟨px, py, d, i, er, ep⟩ := f j qj hj
   obtain ⟨d', px', py', i', e', hon, d0, dd, hmin⟩ :=
-    proj_polyline_nearest_partial hs eps (xy (positions ref)) qj.1 qj.2.1 hnv hz hex
+    proj_polyline_nearest_partial hs eps (xy (positions ref)) qj.1 qj.2.1 hnv hz h2
   rw [ep] at e'
   injection e' with e'
   simp only [Prod.mk.injEq] at e'
@@ -951,8 +1097,9 @@ example : (match projSegment sqT2 0 0 0 8 0 4 with | .error .zerodiv => true | _
     ∧ (projSegment sqT2 0 5 0 8 0 4).toOption = some (1, 0, 5) := by decide +kernel
 
 /-- `proj_polyline_vertical_case`: what an answer `(d, (px,py), i)` of `proj_polyligne` guarantees on ANY polyline, kept
-vertical segments included — the formal counterpart of the class `vertical-segment` of the harness. Segment `i` is a
-kept segment and
+vertical segments included (a polyline with a kept vertical segment has a kept segment: `hex`; without any kept segment
+there is no vertical one to speak of and `proj_polyline_all_skipped` gives the answer) — the formal counterpart of the class
+`vertical-segment` of the harness. Segment `i` is a kept segment and
 * either it is exactly vertical, and then the returned point is one of its two END points (never an interior point:
   the defect D16) — the answer was built by the defective branch;
 * or it is not vertical, and then the answer is right once the kept vertical segments are left out: the point lies on
@@ -961,58 +1108,49 @@ kept segment and
 Hence every failure of the property on the model involves a kept vertical segment in one of these two ways; a failing
 answer of the real code that is in neither is not an instance of the listed finding. -/
 theorem proj_polyline_vertical_case {sqrt : α → α} (hs : SqrtSpec sqrt) (eps : α) (pts : List (α × α))
-    (x y d px py : α) (i : Nat) (h : projPolyligne sqrt eps pts x y = .ok (d, px, py, i)) :
+    (x y d px py : α) (i : Nat) (h : projPolyligne sqrt eps pts x y = .ok (d, px, py, i))
+    (hex : ∃ j p1 p2, pts[j]? = some p1 ∧ pts[j + 1]? = some p2 ∧ skipped eps p1.1 p1.2 p2.1 p2.2 = false) :
     ∃ p1 p2, pts[i]? = some p1 ∧ pts[i + 1]? = some p2 ∧ skipped eps p1.1 p1.2 p2.1 p2.2 = false ∧
       ((p1.1 = p2.1 ∧ p1.2 ≠ p2.2 ∧ ((px, py) = p1 ∨ (px, py) = p2)) ∨
        (p1.1 ≠ p2.1 ∧ OnSeg p1.1 p1.2 p2.1 p2.2 px py ∧ 0 ≤ d ∧ d * d = d2 x y px py ∧
         (∀ qx qy, OnSeg p1.1 p1.2 p2.1 p2.2 qx qy → d * d ≤ d2 x y qx qy) ∧
         ∀ j q1 q2, pts[j]? = some q1 → pts[j + 1]? = some q2 → skipped eps q1.1 q1.2 q2.1 q2.2 = false →
           q1.1 ≠ q2.1 → ∀ qx qy, OnSeg q1.1 q1.2 q2.1 q2.2 qx qy → d * d ≤ d2 x y qx qy)) := by
-  have T4 := proj_polyline_min_partial hs eps pts x y d px py i h
-  unfold projPolyligne at h
-  cases hl : polyLoop sqrt eps x y pts 0 none with
-  | error e => rw [hl] at h; cases h
-  | ok res =>
-    rw [hl] at h
-    cases res with
-    | none => cases h
-    | some r =>
-      simp only at h
-      injection h with h
-      subst h
-      obtain ⟨o1, _, _⟩ := polyLoop_spec sqrt eps x y pts 0 none _ hl
-      have hfrom : FromSeg sqrt eps x y pts 0 (d, px, py, i) := by
-        rcases o1 with e | ⟨r, e, f⟩
-        · cases e
-        · injection e with e; rw [e]; exact f
-      obtain ⟨k, p1, p2, ⟨s1, s2⟩, hi, hk, hp⟩ := hfrom
-      simp only [Nat.zero_add] at hi
-      subst hi
-      refine ⟨p1, p2, s1, s2, hk, ?_⟩
-      obtain ⟨⟨a1, a2, t1, t2, _, hon⟩, d0, dd, hall⟩ := T4
-      rw [s1] at t1; rw [s2] at t2
-      injection t1 with t1; injection t2 with t2
-      subst t1; subst t2
-      by_cases hx : p1.1 = p2.1
-      · left
-        simp only at hp
-        by_cases hyy : p1.2 = p2.2
-        · rw [← hx, ← hyy, projSegment_degenerate hs] at hp; cases hp
-        · refine ⟨hx, hyy, ?_⟩
-          rw [← hx, projSegment_vertical hs _ _ _ _ _ hyy] at hp
-          split at hp
-          · cases hp
-          · injection hp with hp
-            obtain ⟨_, _, _, _, he⟩ := nearestEnd_spec hs p1.1 p1.2 p1.1 p2.2 x y
-            rw [hp] at he
-            simp only at he
-            rcases he with ⟨e1, e2⟩ | ⟨e1, e2⟩
-            · left; ext <;> simp [e1, e2]
-            · right; ext <;> simp [e1, e2, hx]
-      · right
-        refine ⟨hx, hon, d0, dd, (hall _ p1 p2 s1 s2 hk).2 hx, ?_⟩
-        intro j q1 q2 u1 u2 hj hne
-        exact (hall j q1 q2 u1 u2 hj).2 hne
+  have T4 := proj_polyline_min_partial hs eps pts x y d px py i h hex
+  have hl := projPolyligne_kept sqrt eps pts x y _ hex h
+  obtain ⟨o1, _, _⟩ := polyLoop_spec sqrt eps x y pts 0 none _ hl
+  have hfrom : FromSeg sqrt eps x y pts 0 (d, px, py, i) := by
+    rcases o1 with e | ⟨r, e, f⟩
+    · cases e
+    · injection e with e; rw [e]; exact f
+  obtain ⟨k, p1, p2, ⟨s1, s2⟩, hi, hk, hp⟩ := hfrom
+  simp only [Nat.zero_add] at hi
+  subst hi
+  refine ⟨p1, p2, s1, s2, hk, ?_⟩
+  obtain ⟨⟨a1, a2, t1, t2, _, hon⟩, d0, dd, hall⟩ := T4
+  rw [s1] at t1; rw [s2] at t2
+  injection t1 with t1; injection t2 with t2
+  subst t1; subst t2
+  by_cases hx : p1.1 = p2.1
+  · left
+    simp only at hp
+    by_cases hyy : p1.2 = p2.2
+    · rw [← hx, ← hyy, projSegment_degenerate hs] at hp; cases hp
+    · refine ⟨hx, hyy, ?_⟩
+      rw [← hx, projSegment_vertical hs _ _ _ _ _ hyy] at hp
+      split at hp
+      · cases hp
+      · injection hp with hp
+        obtain ⟨_, _, _, _, he⟩ := nearestEnd_spec hs p1.1 p1.2 p1.1 p2.2 x y
+        rw [hp] at he
+        simp only at he
+        rcases he with ⟨e1, e2⟩ | ⟨e1, e2⟩
+        · left; ext <;> simp [e1, e2]
+        · right; ext <;> simp [e1, e2, hx]
+  · right
+    refine ⟨hx, hon, d0, dd, (hall _ p1 p2 s1 s2 hk).2 hx, ?_⟩
+    intro j q1 q2 u1 u2 hj hne
+    exact (hall j q1 q2 u1 u2 hj).2 hne
 
 
 /-- non-vacuity of `proj_polyline_vertical_case`, both branches, evaluated on the model (`eps = 1` skips exactly the
